@@ -76,6 +76,24 @@ pub struct RunInfo {
 /// Prints verdict lines, writes replay files; returns the number of unlisted violations.
 pub fn conclude(info: &RunInfo, violations: &[Violation], extra_counts: &BTreeMap<String, u64>) -> (usize, usize) {
     let known = load_known_findings();
+    // a panic while the harness wrote initial contents with ordinary single-level calls
+    let setup: Vec<Violation> = {
+        let mut seen = std::collections::BTreeSet::new();
+        crate::config::SETUP_PANICS
+            .lock()
+            .unwrap()
+            .iter()
+            .filter(|m| seen.insert(m.split(" @ ").last().unwrap_or("").to_string()))
+            .map(|m| Violation {
+                property: info.property.clone(),
+                signature: format!("setup|panic|{}", m.split(" @ ").last().unwrap_or("")),
+                summary: format!("writing the initial contents (create_dir / create_file+write per level) panicked: {}", m),
+                replay: serde_json::json!({"engine": "setup", "message": m}),
+            })
+            .collect()
+    };
+    let violations: Vec<Violation> = violations.iter().cloned().chain(setup).collect();
+    let violations = &violations[..];
     // first (= shortest history, BFS order) violation per signature
     let mut by_sig: BTreeMap<String, &Violation> = BTreeMap::new();
     let mut counts: BTreeMap<String, usize> = BTreeMap::new();
